@@ -192,9 +192,20 @@ def e2e(ctx, d, pgpy, case):
         # key state AFTER the signature was made
         uid = k.userids[0]
         if case['expiry'] != 'none':
-            days = 30 if case['expiry'] == 'past' else 36500
+            days = {'past': 30, 'far': 36500, 'zero': 0}[case['expiry']]        # zero: the key never expires
             uid |= k.certify(uid, key_expiration=timedelta(days=days), created=K.T0 + timedelta(seconds=20),
                              usage={KeyFlags.Sign, KeyFlags.Certify})
+        if case.get('subexpiry', 'none') != 'none' and ss is not None:
+            # a NEWER binding signature of the signing subkey with a key expiration time (what gpg writes for a subkey with a validity
+            # period; PGPKey.bind has no option for it): 30 days (long over), 100 years, or zero (= never, RFC 4880 5.2.3.6)
+            from pgpy.constants import SignatureType
+            sub = ss[0]
+            exp = {'past': timedelta(days=30), 'far': timedelta(days=36500), 'zero': timedelta(0)}[case['subexpiry']]
+            b = pgpy.PGPSignature.new(SignatureType.Subkey_Binding, k.key_algorithm, None, k.fingerprint.keyid, created=K.T0 + timedelta(seconds=25))
+            b._signature.subpackets.addnew('KeyFlags', hashed=True, flags={KeyFlags.Sign})
+            b._signature.subpackets.addnew('KeyExpirationTime', hashed=True, expires=exp)
+            b._signature.subpackets.addnew('EmbeddedSignature', hashed=False, _sig=sub.bind(k)._signature)
+            sub |= k._sign(sub, b)
         if case['revoked']:
             k |= k.revoke(k, created=K.T0 + timedelta(seconds=30))
         pub = k.pubkey
@@ -203,6 +214,7 @@ def e2e(ctx, d, pgpy, case):
         o = outcome(lambda: pub.verify(subject, signature) if signature is not None else pub.verify(subject))
         selfv = int(pub.self_verified)
     expired = case['expiry'] == 'past'
+    sub_expired = case.get('subexpiry', 'none') == 'past' and ss is not None
     if o[0] != 'ok':
         ctx.fail('e2e', 'verify raised', dict(case, impl=repr(o)))
         return True
@@ -219,8 +231,9 @@ def e2e(ctx, d, pgpy, case):
             info = pk
         else:
             sub = [(sa, sz) for (sa, sz, us), skid in zip(subs, k.subkeys) if skid == s.signature.signer]
-            # subkeys: never expired themselves (no user ids), expired with their primary; not revoked here
-            info = '%s:0:%s:0:%s' % (kinfo(*sub[0]), b01(expired), hn(selfv))
+            # subkeys: expired by their own newest binding signature (repair 96d5157) or with their primary; not revoked here
+            own = sub_expired and s.signature.signer == ss[0].fingerprint.keyid
+            info = '%s:%s:%s:0:%s' % (kinfo(*sub[0]), b01(own), b01(expired), hn(selfv))
         selfver = case['subject'] == 'selfkey' and is_prim and type(s.subject).__name__ == 'PGPKey' and s.subject.is_primary
         good_here = True if case['subject'] == 'selfkey' else case['good']
         pairs.append('%s:%s:%s' % (info, b01(selfver), b01(good_here)))
@@ -233,15 +246,17 @@ def e2e(ctx, d, pgpy, case):
         ctx.fail('e2e', msg, dict(case, impl=impl)); failed = True
     if case['subject'] != 'selfkey' and not case['good'] and bool(sv):
         ctx.fail('e2e', 'a cryptographically wrong signature leaves the result truthy', dict(case, impl=impl)); failed = True
-    if expired and bool(sv):
+    by_exp_sub = [sub_expired and s.signature.signer == ss[0].fingerprint.keyid for s in sv._subjects]
+    if (expired or any(by_exp_sub)) and bool(sv):
         ctx.fail('e2e', 'disqualified (expired) key yields a truthy verification' +
-                 ('' if any(by_primary) else ' (signature made by a subkey of the expired primary)'), dict(case, impl=impl))
+                 (' (signature made by an expired subkey)' if any(by_exp_sub) and not expired else '' if any(by_primary) else ' (signature made by a subkey of the expired primary)'), dict(case, impl=impl))
         failed = True
-    if expired:
-        for s in sv._subjects:
-            if not (int(s.issues) & FAIL_MASK):
-                ctx.fail('e2e', 'entry examined with an expired key (or a subkey of one) is not disqualified', dict(case, impl=impl)); failed = True
-    if not expired and (case['good'] or case['subject'] == 'selfkey') and not bool(sv):
+    for s, es in zip(sv._subjects, by_exp_sub):
+        if (expired or es) and not (int(s.issues) & FAIL_MASK):
+            ctx.fail('e2e', 'entry examined with an expired key (an expired subkey, or a subkey of an expired key) is not disqualified', dict(case, impl=impl)); failed = True
+    if sub_expired and case['signer'] in ('subkey', 'both') and case['subject'] != 'selfkey' and not any(by_exp_sub):
+        ctx.fail('e2e', 'the signature of the expired subkey was not examined at all', dict(case, impl=impl)); failed = True
+    if not expired and not any(by_exp_sub) and (case['good'] or case['subject'] == 'selfkey') and not bool(sv):
         ctx.fail('e2e', 'sound key and correct signature, yet falsy (an advisory weakness disqualified)', dict(case, impl=impl)); failed = True
     return failed
 
@@ -251,7 +266,7 @@ def e2e_cases(ctx, names):
     out = []
     i = 0
     for name in names:
-        for expiry in ('none', 'past', 'far'):
+        for expiry in ('none', 'past', 'far', 'zero'):
             for revoked in (False, True):
                 hs = hashes if not ctx.quick else [hashes[i % 3]]
                 i += 1
@@ -262,6 +277,13 @@ def e2e_cases(ctx, names):
                 if expiry == 'far' and ctx.quick:
                     continue
                 h = hashes[i % 2]
+                # the signing subkey with a validity period of its own (newest binding signature), the primary as it is
+                if not revoked and any(u == 'sign' for (_, _, u) in K.SPECS[name][2]):
+                    for subexpiry in (('past', 'zero') if ctx.quick else ('past', 'far', 'zero')):
+                        for subject, signer in (('text', 'subkey'), ('msg', 'both'), ('msg', 'subkey'), ('selfkey', 'primary')):
+                            for good in ((True,) if ctx.quick or subject == 'selfkey' else (True, False)):
+                                out.append({'op': 'e2e', 'key': name, 'hash': h, 'expiry': expiry, 'revoked': False, 'good': good,
+                                            'signer': signer, 'subject': subject, 'subexpiry': subexpiry})
                 for subject, signer in (('msg', 'primary'), ('msg', 'both'), ('msg', 'subkey'), ('text', 'subkey'),
                                         ('selfkey', 'primary'), ('uid3p', 'primary')):
                     if signer != 'primary' and not any(u == 'sign' for (_, _, u) in K.SPECS[name][2]):
@@ -298,6 +320,10 @@ def _run(ctx, d, pgpy):
     for fn, frag in ((pgpy.PGPKey.check_management, "res = self.self_verified\n        if self.is_expired or (self.parent is not None and self.parent.is_expired):"),
                      (pgpy.PGPKey.check_management, "res |= int(bool(list(self.revocation_signatures))) * SecurityIssues.Revoked"),
                      (pgpy.PGPKey.check_soundness, "return self.check_management(self_verifying) | self.check_primitives()"),
+                     # where k_expired of the model comes from: is_expired reads expires_at; a subkey's comes from its newest binding signature (repair 96d5157)
+                     (pgpy.PGPKey.expires_at.fget, "if not self.is_primary:"),
+                     (pgpy.PGPKey.expires_at.fget, "if sig.type == SignatureType.Subkey_Binding and \\\n                        (self.parent is None or sig.signer == self.parent.fingerprint.keyid):\n                    expires = sig.key_expiration"),
+                     (pgpy.PGPKey.expires_at.fget, "if expires:\n            return self.created + expires"),
                      (pgpy.PGPKey.verify, "subkey_issues = self.check_soundness(self_verifying)\n                signature_issues = self.check_primitives()"),
                      (pgpy.PGPKey.verify, "if issues and issues.causes_signature_verify_to_fail:\n                    sigv.add_sigsubj(sig, self, subj, issues)"),
                      (pgpy.PGPKey.verify, "sigv.add_sigsubj(sig, self, subj, SecurityIssues.WrongSig if not verified else SecurityIssues.OK)")):
